@@ -84,4 +84,319 @@ theorem lookupT_insertTag (c : Ctx) (k k' : TagKey) (t : Tagged) :
     simp only [h, if_false]
     cases lookupT c.importedTags k' <;> rfl
 
+/-! ### importing tags -/
+
+/-- same maps except `imported_tags` (and the active vertex / suspended stack) -/
+def SameMaps (c c' : Ctx) : Prop :=
+  c'.vertices = c.vertices ∧ c'.values = c.values ∧ c'.foldCounts = c.foldCounts ∧
+    c'.foldedValues = c.foldedValues
+
+theorem SameMaps.refl (c : Ctx) : SameMaps c c := ⟨rfl, rfl, rfl, rfl⟩
+
+theorem SameMaps.trans {a b c : Ctx} (h1 : SameMaps a b) (h2 : SameMaps b c) : SameMaps a c :=
+  ⟨h2.1.trans h1.1, h2.2.1.trans h1.2.1, h2.2.2.1.trans h1.2.2.1, h2.2.2.2.trans h1.2.2.2⟩
+
+theorem TagsOK.of_subset {L L' : List FieldRef} {tags : List (TagKey × Tagged)}
+    (h : TagsOK L tags) (hsub : ∀ r ∈ L', r ∈ L) : TagsOK L' tags :=
+  fun r hr => h r (hsub r hr)
+
+theorem import_ty_eq {S : SchemaView} {comp : Component} {r r' : FieldRef}
+    (h : importTyped S comp r = true) (h' : importTyped S comp r' = true) (hk : r.key = r'.key) :
+    fieldRefTy r = fieldRefTy r' := by
+  cases r with
+  | ctx vid f ty =>
+    cases r' with
+    | ctx vid' f' ty' =>
+      simp only [FieldRef.key, TagKey.ctx.injEq] at hk
+      obtain ⟨rfl, rfl⟩ := hk
+      simp only [importTyped] at h h'
+      cases hvx : comp.vertex? vid with
+      | none => simp [hvx] at h
+      | some vx =>
+        simp only [hvx, Bool.and_eq_true] at h h'
+        have h1 := optQTy_beq h.2
+        have h2 := optQTy_beq h'.2
+        rw [h1] at h2
+        simpa [fieldRefTy] using h2
+    | fcount e r => simp [FieldRef.key] at hk
+  | fcount e rv =>
+    cases r' with
+    | ctx vid' f' ty' => simp [FieldRef.key] at hk
+    | fcount e' rv' => rfl
+
+theorem importTag_safe (W : World) {comp : Component} {chain : List FieldRef} {st : WState}
+    {r : FieldRef} (hwf : importWf comp chain st r = true) (hty : importTyped W.S comp r = true)
+    {L : List FieldRef} (hL : ∀ r0 ∈ L, r0.key = r.key → fieldRefTy r0 = fieldRefTy r)
+    {c : Ctx} (hv : VertsOK W comp st c.vertices)
+    (hcnt : CountsOK (st.foldsDone.map (·.eid)) c.foldCounts) (ht : TagsOK L c.importedTags) :
+    Safe W.G (fun c' => SameMaps c c' ∧ TagsOK (r :: L) c'.importedTags)
+      (importTag W.env comp r c) := by
+  have key : ∀ (c0 : Ctx) (t : Tagged), c0.importedTags = c.importedTags → tagTyped r t →
+      TagsOK (r :: L) (c0.insertTag r.key t).importedTags := by
+    intro c0 t hc0 htt r0 hr0
+    rw [lookupT_insertTag, hc0]
+    rcases List.mem_cons.mp hr0 with rfl | hr0
+    · exact ⟨t, by simp, htt⟩
+    · by_cases hk : r0.key = r.key
+      · refine ⟨t, by simp [hk], ?_⟩
+        cases t with
+        | nonexistent => trivial
+        | some v =>
+          simp only [tagTyped] at htt ⊢
+          rw [hL r0 hr0 hk]; exact htt
+      · obtain ⟨t0, ht0, htt0⟩ := ht r0 hr0
+        exact ⟨t0, by simp [hk, ht0], htt0⟩
+  cases r with
+  | ctx vid field ty =>
+    simp only [importWf, Bool.and_eq_true, List.contains_eq_mem, decide_eq_true_eq] at hwf
+    obtain ⟨⟨hvsome, hrec⟩, _⟩ := hwf
+    simp only [importTag]
+    cases hvx : comp.vertex? vid with
+    | none => simp [hvx] at hvsome
+    | some vx =>
+      simp only [importTyped, hvx, Bool.and_eq_true] at hty
+      have hp := optQTy_beq hty.2
+      rw [← hv.keys] at hrec
+      obtain ⟨target, htarget⟩ := lookupV_of_mem hrec
+      simp only [R.bind_eq_bind, R.pure_eq_ok, activate_ok htarget, R.bind_ok']
+      have hact : activeOK W.D target vx.typeName = true := by
+        cases target with
+        | none => rfl
+        | some x =>
+          obtain ⟨vx', hvx', hinst⟩ := hv.inst vid x htarget
+          rw [hvx] at hvx'; cases hvx'
+          simpa [activeOK] using hinst
+      rw [checked_prop hty.1 (by simp [hp]) hact]
+      simp only [R.bind_ok', Safe.ok_iff]
+      refine ⟨⟨rfl, rfl, rfl, rfl⟩, ?_⟩
+      apply key { c with active := target } _ rfl
+      cases target with
+      | none => trivial
+      | some x => exact propOpt_valid hact hp x rfl
+  | fcount eid rv =>
+    simp only [importWf, Bool.and_eq_true, List.contains_eq_mem, decide_eq_true_eq] at hwf
+    have hin := hwf.1
+    rw [← hcnt] at hin
+    obtain ⟨a, ha⟩ := lookupC_of_mem hin
+    simp only [importTag, foldCount?_eq, ha]
+    cases a with
+    | none =>
+      simp only [Safe.ok_iff]
+      exact ⟨⟨rfl, rfl, rfl, rfl⟩, key c _ rfl trivial⟩
+    | some n =>
+      simp only [Safe.ok_iff]
+      refine ⟨⟨rfl, rfl, rfl, rfl⟩, key c _ rfl ?_⟩
+      simp [tagTyped, fieldRefTy, validQ, validNulls]
+
+theorem importTags_safe (W : World) {comp : Component} {chain : List FieldRef} {st : WState}
+    (rs : List FieldRef) (hwf : ∀ r ∈ rs, importWf comp chain st r = true)
+    (hty : ∀ r ∈ rs, importTyped W.S comp r = true)
+    (L : List FieldRef) (hL : ∀ r0 ∈ L, r0 ∈ chain ∨ importTyped W.S comp r0 = true)
+    {c : Ctx} (hv : VertsOK W comp st c.vertices)
+    (hcnt : CountsOK (st.foldsDone.map (·.eid)) c.foldCounts) (ht : TagsOK L c.importedTags) :
+    Safe W.G (fun c' => SameMaps c c' ∧ TagsOK (rs.reverse ++ L) c'.importedTags)
+      (importTags W.env comp rs c) := by
+  induction rs generalizing L c with
+  | nil => simpa [importTags] using ⟨SameMaps.refl c, ht⟩
+  | cons r rs ih =>
+    simp only [importTags]
+    have hcompat : ∀ r0 ∈ L, r0.key = r.key → fieldRefTy r0 = fieldRefTy r := by
+      intro r0 hr0 hk
+      rcases hL r0 hr0 with hch | hit
+      · exfalso
+        have := hwf r (by simp)
+        cases r with
+        | ctx vid f ty =>
+          simp only [importWf, Bool.and_eq_true, Bool.not_eq_true', List.any_eq_false] at this
+          have := this.2 r0 hch
+          have hk' : r0.key = TagKey.ctx vid f := hk
+          rw [hk'] at this
+          simp [TagKey.beq_iff] at this
+        | fcount e rv =>
+          simp only [importWf, Bool.and_eq_true, Bool.not_eq_true', List.any_eq_false] at this
+          have := this.2 r0 hch
+          have hk' : r0.key = TagKey.fcount e := hk
+          rw [hk'] at this
+          simp [TagKey.beq_iff] at this
+      · exact import_ty_eq hit (hty r (by simp)) hk
+    refine Safe.bind (importTag_safe W (hwf r (by simp)) (hty r (by simp)) hcompat hv hcnt ht) ?_
+    intro c1 ⟨hsame, ht1⟩
+    have := ih (fun x hx => hwf x (by simp [hx])) (fun x hx => hty x (by simp [hx])) (r :: L)
+      (by
+        intro r0 hr0
+        rcases List.mem_cons.mp hr0 with rfl | hr0
+        · exact Or.inr (hty _ (by simp))
+        · exact hL r0 hr0)
+      (c := c1) (hsame.1 ▸ hv) (hsame.2.2.1 ▸ hcnt) ht1
+    refine Safe.mono this ?_
+    intro c' ⟨hs', ht'⟩
+    refine ⟨hsame.trans hs', ?_⟩
+    simpa [List.reverse_cons, List.append_assoc] using ht'
+
+
+/-! ### removing the imported tags -/
+
+theorem removeTags_shape : ∀ (rs : List FieldRef) (c c' : Ctx), removeTags rs c = .ok c' →
+    SameMaps c c' ∧ c'.active = c.active ∧
+      ∀ k, (∀ r ∈ rs, r.key ≠ k) → lookupT c'.importedTags k = lookupT c.importedTags k := by
+  intro rs
+  induction rs with
+  | nil =>
+    intro c c' h
+    simp only [removeTags, R.ok.injEq] at h
+    subst h
+    exact ⟨SameMaps.refl c, rfl, fun _ _ => rfl⟩
+  | cons r rs ih =>
+    intro c c' h
+    simp only [removeTags, Ctx.removeTag] at h
+    cases ht : c.tag? r.key with
+    | none => simp [ht] at h
+    | some t =>
+      simp only [ht, R.bind_ok'] at h
+      obtain ⟨hs, ha, hl⟩ := ih _ c' h
+      refine ⟨⟨hs.1, hs.2.1, hs.2.2.1, hs.2.2.2⟩, ha, ?_⟩
+      intro k hk
+      rw [hl k (fun r' hr' => hk r' (by simp [hr']))]
+      exact lookupT_filter_ne (Ne.symm (hk r (by simp)))
+
+theorem removeTags_site : ∀ (rs : List FieldRef) (c : Ctx) (s : String),
+    removeTags rs c = .panic s → s = "imported_tags.remove(..).unwrap()" := by
+  intro rs
+  induction rs with
+  | nil => intro c s h; simp [removeTags] at h
+  | cons r rs ih =>
+    intro c s h
+    simp only [removeTags, Ctx.removeTag] at h
+    cases ht : c.tag? r.key with
+    | none => simp only [ht, R.bind_panic', R.panic.injEq] at h; exact h.symm
+    | some t =>
+      simp only [ht, R.bind_ok'] at h
+      exact ih _ s h
+
+theorem removeTags_ne_fuel : ∀ (rs : List FieldRef) (c : Ctx), removeTags rs c ≠ .fuel := by
+  intro rs
+  induction rs with
+  | nil => intro c h; simp [removeTags] at h
+  | cons r rs ih =>
+    intro c h
+    simp only [removeTags, Ctx.removeTag] at h
+    cases ht : c.tag? r.key with
+    | none => simp [ht] at h
+    | some t =>
+      simp only [ht, R.bind_ok'] at h
+      exact ih _ h
+
+theorem removeTags_ok : ∀ (rs : List FieldRef) (c : Ctx), tagKeysDistinct rs = true →
+    (∀ r ∈ rs, (lookupT c.importedTags r.key).isSome = true) → ∃ c', removeTags rs c = .ok c' := by
+  intro rs
+  induction rs with
+  | nil => intro c _ _; exact ⟨c, rfl⟩
+  | cons r rs ih =>
+    intro c hd hp
+    simp only [tagKeysDistinct, Bool.and_eq_true, Bool.not_eq_true', List.any_eq_false] at hd
+    simp only [removeTags, Ctx.removeTag]
+    have := hp r (by simp)
+    rw [tag?_eq]
+    cases ht : lookupT c.importedTags r.key with
+    | none => simp [ht] at this
+    | some t =>
+      simp only [R.bind_ok']
+      apply ih _ hd.2
+      intro r' hr'
+      have hne : r'.key ≠ r.key := by
+        intro heq
+        have := hd.1 r' hr'
+        rw [heq] at this
+        simp [TagKey.beq_iff] at this
+      simp only
+      rw [lookupT_filter_ne hne]
+      exact hp r' (by simp [hr'])
+
+theorem removeTags_safe (W : World) (rs : List FieldRef) (c : Ctx)
+    (hd : W.G → tagKeysDistinct rs = true)
+    (hp : ∀ r ∈ rs, (lookupT c.importedTags r.key).isSome = true) :
+    Safe W.G (fun c' => SameMaps c c' ∧ c'.active = c.active ∧
+      ∀ k, (∀ r ∈ rs, r.key ≠ k) → lookupT c'.importedTags k = lookupT c.importedTags k)
+      (removeTags rs c) := by
+  cases h : removeTags rs c with
+  | ok c' => exact removeTags_shape rs c c' h
+  | fuel => exact absurd h (removeTags_ne_fuel rs c)
+  | panic s =>
+    refine ⟨by rw [removeTags_site rs c s h]; decide, fun g => ?_⟩
+    obtain ⟨c', hc'⟩ := removeTags_ok rs c (hd g) hp
+    rw [h] at hc'; cases hc'
+
+
+/-! ### post-filters on the fold count -/
+
+theorem applyPostFilter_safe (W : World) {comp : Component} {chain : List FieldRef} {st : WState}
+    {eids : List Eid} {fold : Fold} {fromV : IRVertex}
+    (hso : soLocal W.S chain comp = true) (hfromV : comp.vertex? fold.fromVid = some fromV)
+    (hvt : W.S.isVertexType fromV.typeName = true) {pf : IRFilter}
+    (hwf : filterWf W.vars comp chain st.recorded eids fold.fromVid true pf = true)
+    (hty : filterTyped W.S comp fromV.typeName fold.fromVid ⟨"Int", [false]⟩ pf = true)
+    (hnt : W.G → filterNoTrigger W.D W.args ⟨"Int", [false]⟩ pf = true)
+    {c : Ctx} (hc : VPre W comp chain st eids fromV.typeName c) {cnt : Option Nat}
+    (hcnt : lookupC c.foldCounts fold.eid = some cnt) (hF9 : W.G → cnt.isSome = true) :
+    Safe W.G (fun o => ∀ c', o = some c' → c' = c) (applyPostFilter W.env comp fold pf c) := by
+  unfold applyPostFilter
+  rw [foldCount?_eq, hcnt]
+  cases cnt with
+  | none =>
+    refine ⟨by decide, fun g => ?_⟩
+    have := hF9 g
+    simp at this
+  | some n =>
+    simp only [R.bind_eq_bind, R.pure_eq_ok]
+    refine Safe.bind (applyFilter_safe W (st := st) (eids := eids) (leftTy := ⟨"Int", [false]⟩) hso
+      hfromV hvt hwf hty hnt [c.pushValue (.uint64 (UInt64.ofNat n))] ?_) ?_
+    · intro c0 hc0
+      simp only [List.mem_singleton] at hc0
+      subst hc0
+      exact ⟨hc.verts, hc.counts, hc.tags, hc.act, _, _, rfl,
+        fun _ _ => by simp [validQ, validNulls]⟩
+    · intro out hout
+      cases out with
+      | nil => simp
+      | cons c' rest =>
+        simp only [Safe.ok_iff, Option.some.injEq]
+        intro c'' hc''
+        subst hc''
+        obtain ⟨c0, hc0, val, rest', hvals, rfl⟩ := hout c' (by simp)
+        simp only [List.mem_singleton] at hc0
+        subst hc0
+        simp only [Ctx.pushValue, hc.vals, List.cons.injEq] at hvals
+        obtain ⟨_, rfl⟩ := hvals
+        have := Ctx.push_pop c (.uint64 (UInt64.ofNat n))
+        rw [hc.vals] at this
+        exact this
+
+theorem applyPostFilters_safe (W : World) {comp : Component} {chain : List FieldRef} {st : WState}
+    {eids : List Eid} {fold : Fold} {fromV : IRVertex}
+    (hso : soLocal W.S chain comp = true) (hfromV : comp.vertex? fold.fromVid = some fromV)
+    (hvt : W.S.isVertexType fromV.typeName = true) (fs : List IRFilter)
+    (hwf : ∀ pf ∈ fs, filterWf W.vars comp chain st.recorded eids fold.fromVid true pf = true)
+    (hty : ∀ pf ∈ fs, filterTyped W.S comp fromV.typeName fold.fromVid ⟨"Int", [false]⟩ pf = true)
+    (hnt : W.G → ∀ pf ∈ fs, filterNoTrigger W.D W.args ⟨"Int", [false]⟩ pf = true)
+    {c : Ctx} (hc : VPre W comp chain st eids fromV.typeName c) {cnt : Option Nat}
+    (hcnt : lookupC c.foldCounts fold.eid = some cnt) (hF9 : W.G → fs ≠ [] → cnt.isSome = true) :
+    Safe W.G (fun o => ∀ c', o = some c' → c' = c) (applyPostFilters W.env comp fold fs c) := by
+  induction fs with
+  | nil => simp [applyPostFilters]
+  | cons pf fs ih =>
+    simp only [applyPostFilters, R.bind_eq_bind, R.pure_eq_ok]
+    refine Safe.bind (applyPostFilter_safe W hso hfromV hvt (hwf pf (by simp)) (hty pf (by simp))
+      (fun g => hnt g pf (by simp)) hc hcnt (fun g => hF9 g (by simp))) ?_
+    intro o ho
+    cases o with
+    | none => simp
+    | some c1 =>
+      have h1 := ho c1 rfl
+      subst h1
+      simp only
+      exact ih (fun pf hpf => hwf pf (by simp [hpf])) (fun pf hpf => hty pf (by simp [hpf]))
+        (fun g pf hpf => hnt g pf (by simp [hpf]))
+        (fun g hne => hF9 g (by simp))
+
+
 end TF.Engine
